@@ -62,7 +62,68 @@ func init() {
 	Exec["bitmap.Fmt"] = func(a []V) string {
 		return Str(bitmap.Fmt(c12FmtArg(a[0].Int(), a[1].Bool(), a[2].Bool(), a[3].L)))
 	}
+	// widening: the constructors composed with the readers of C01 / C13
+	Exec["bitmap.Of/query"] = func(a []V) string {
+		return c12Query(c12Of(a[0].I32s(), a[1].L), a[2].Bool(), a[3].I32(), a[4].I32())
+	}
+	Exec["bitmap.Builder/query"] = func(a []V) string {
+		b := bitmap.NewBuilder(a[0].I32())
+		for _, op := range a[1].L {
+			if op.L[0].Int() == 0 {
+				b.Extend(op.L[1].I32s(), op.L[2].I32())
+			} else {
+				b.Set(op.L[1].I32(), op.L[2].I32())
+			}
+		}
+		return c12Query(b.Words, a[2].Bool(), a[3].I32(), a[4].I32())
+	}
 	Register("C12", genC12)
+}
+
+// c12Query: Rank64 and Rank128 (freshly built indexes) at i, NextOne and PrevOne on [i, e)
+func c12Query(r []uint64, tr bool, i, e int32) string {
+	c64, b64 := bitmap.Rank64(r, bitmap.IndexRank64(r, tr), i)
+	c128, b128 := bitmap.Rank128(r, bitmap.IndexRank128(r), i)
+	return L(L(I32(c64), I32(b64)), L(I32(c128), I32(b128)), I32(bitmap.NextOne(r, i, e)), I32(bitmap.PrevOne(r, i, e)))
+}
+
+// c12Range draws 0 <= i <= e <= nbits, i < nbits, 1 <= e (nbits >= 1), aimed at the positions in ps
+func c12Range(g *Gen, ps []int32, shift, nbits int) (int, int, string) {
+	i := g.R.Intn(nbits)
+	kind := "rnd"
+	if len(ps) > 0 && g.R.Intn(3) > 0 {
+		p := int(ps[g.R.Intn(len(ps))]) + shift + g.R.Pick(-1, 0, 0, 1)
+		if p >= 0 && p < nbits {
+			i = p
+			kind = "atpos"
+		}
+	} else if g.R.Intn(4) == 0 {
+		i = (i/64)*64 + g.R.Pick(0, 63)
+		if i >= nbits {
+			i = nbits - 1
+		}
+		kind = "edge"
+	}
+	lo := i
+	if lo < 1 {
+		lo = 1
+	}
+	e := g.R.Range(lo, nbits)
+	switch g.R.Intn(5) {
+	case 0:
+		e = nbits
+	case 1:
+		e = lo
+	case 2:
+		e = minInt(lo+g.R.Pick(1, 2, 63, 64, 65), nbits)
+	}
+	ek := "mid"
+	if e == nbits {
+		ek = "end"
+	} else if e <= i+1 {
+		ek = "tiny"
+	}
+	return i, e, kind + "/" + ek
 }
 
 // c12FmtArg builds the Go value described by (byte size, signedness, slice or single, values).
@@ -247,6 +308,92 @@ func c12Subs(subs [][]int32) string {
 	return L(xs...)
 }
 
+// c12History draws NewBuilder(n) and 1..12 Extend/Set calls; returns n, the calls, the mode, the feature string,
+// and the number of bits the builder must cover (max of Offset and last set position + 1)
+func c12History(g *Gen) (int, []string, int, string, int, []int32) {
+	n := g.R.Pick(0, 0, 1, 63, 64, 100, 1000)
+	nops := g.R.Range(1, 12)
+	mode := g.R.Intn(3) // 0 extends only, 1 sets only, 2 mixed
+	var ops []string
+	var all []int32
+	off, lim := 0, 0
+	feat := map[string]bool{}
+	for o := 0; o < nops; o++ {
+		if mode == 0 || (mode == 2 && g.R.Intn(3) > 0) {
+			size := g.R.Pick(0, 0, 1, 5, 63, 64, 65, 100, 128, 300)
+			if g.R.Intn(3) == 0 {
+				size = g.R.Intn(260)
+			}
+			ps := []int32{}
+			if g.R.Intn(6) > 0 {
+				l := size
+				if l == 0 || g.R.Intn(5) == 0 {
+					l = size + g.R.Pick(1, 2, 64, 65, 300) // positions >= size
+				}
+				ps = c12Positions(g, g.R.Intn(5), l, g.R.Pick(1, 3, 8))
+			}
+			if len(ps) > 0 && int(ps[len(ps)-1]) >= size {
+				feat["over"] = true
+			}
+			if size == 0 {
+				feat["z"] = true
+			}
+			if len(ps) == 0 {
+				feat["e"] = true
+			}
+			for _, p := range ps {
+				all = append(all, int32(off)+p)
+				if off+int(p)+1 > lim {
+					lim = off + int(p) + 1
+				}
+			}
+			ops = append(ops, L("0", I32s(ps), Int(size)))
+			off += size
+		} else {
+			var p int
+			switch g.R.Intn(4) {
+			case 0:
+				p = off + g.R.Pick(-1, 0, 1, 63, 64, 65, 200)
+			case 1:
+				p = g.R.Intn(off + 1)
+			case 2:
+				p = 64*g.R.Intn(6) + g.R.Pick(0, 63)
+			default:
+				p = g.R.Intn(500)
+			}
+			if p < 0 {
+				p = 0
+			}
+			v := g.R.Pick(0, 1, 1, 1, 2, 3, -1, -2)
+			if p >= off {
+				feat["adv"] = true
+				off = p + 1
+			} else {
+				feat["below"] = true
+			}
+			if v&1 == 0 {
+				feat["v0"] = true
+			} else {
+				all = append(all, int32(p))
+			}
+			if p+1 > lim {
+				lim = p + 1
+			}
+			ops = append(ops, L("1", Int(p), Int(v)))
+		}
+		if off > lim {
+			lim = off
+		}
+	}
+	fs := []string{}
+	for _, f := range []string{"over", "z", "e", "adv", "below", "v0"} {
+		if feat[f] {
+			fs = append(fs, f)
+		}
+	}
+	return n, ops, mode, strings.Join(fs, "+"), lim, all
+}
+
 func genC12(g *Gen) {
 	of := func(ps []int32, opt string, bucket string) {
 		g.Stat(bucket)
@@ -394,74 +541,10 @@ func genC12(g *Gen) {
 	// (5) Builder histories: NewBuilder(n), then 1..12 calls of Extend(ps, size) / Set(p, v)
 	nb := g.N(1200, 30000)
 	for k := 0; k < nb; k++ {
-		n := g.R.Pick(0, 0, 1, 63, 64, 100, 1000)
-		nops := g.R.Range(1, 12)
-		mode := g.R.Intn(3) // 0 extends only, 1 sets only, 2 mixed
-		var ops []string
-		off := 0
-		feat := map[string]bool{}
-		for o := 0; o < nops; o++ {
-			if mode == 0 || (mode == 2 && g.R.Intn(3) > 0) {
-				size := g.R.Pick(0, 0, 1, 5, 63, 64, 65, 100, 128, 300)
-				if g.R.Intn(3) == 0 {
-					size = g.R.Intn(260)
-				}
-				ps := []int32{}
-				if g.R.Intn(6) > 0 {
-					lim := size
-					if lim == 0 || g.R.Intn(5) == 0 {
-						lim = size + g.R.Pick(1, 2, 64, 65, 300) // positions >= size
-					}
-					ps = c12Positions(g, g.R.Intn(5), lim, g.R.Pick(1, 3, 8))
-				}
-				if len(ps) > 0 && int(ps[len(ps)-1]) >= size {
-					feat["over"] = true
-				}
-				if size == 0 {
-					feat["z"] = true
-				}
-				if len(ps) == 0 {
-					feat["e"] = true
-				}
-				ops = append(ops, L("0", I32s(ps), Int(size)))
-				off += size
-			} else {
-				var p int
-				switch g.R.Intn(4) {
-				case 0:
-					p = off + g.R.Pick(-1, 0, 1, 63, 64, 65, 200)
-				case 1:
-					p = g.R.Intn(off + 1)
-				case 2:
-					p = 64*g.R.Intn(6) + g.R.Pick(0, 63)
-				default:
-					p = g.R.Intn(500)
-				}
-				if p < 0 {
-					p = 0
-				}
-				v := g.R.Pick(0, 1, 1, 1, 2, 3, -1, -2)
-				if p >= off {
-					feat["adv"] = true
-					off = p + 1
-				} else {
-					feat["below"] = true
-				}
-				if v&1 == 0 {
-					feat["v0"] = true
-				}
-				ops = append(ops, L("1", Int(p), Int(v)))
-			}
-		}
-		fs := []string{}
-		for _, f := range []string{"over", "z", "e", "adv", "below", "v0"} {
-			if feat[f] {
-				fs = append(fs, f)
-			}
-		}
+		n, ops, mode, fs, _, _ := c12History(g)
 		key := ""
-		if nops > 1 {
-			key = fmt.Sprintf("B/m%d/n%d/%s/ops%d", mode, minInt(n, 65), strings.Join(fs, "+"), (nops+3)/4)
+		if len(ops) > 1 {
+			key = fmt.Sprintf("B/m%d/n%d/%s/ops%d", mode, minInt(n, 65), fs, (len(ops)+3)/4)
 		}
 		g.Stat(fmt.Sprintf("builder-mode%d", mode))
 		g.Do("bitmap.Builder", L(Int(n), L(ops...)), key)
@@ -525,5 +608,46 @@ func genC12(g *Gen) {
 		fm(sz, false, true, []string{}, "fmt-notint")
 		fm(sz, false, true, []string{"1"}, "fmt-notint")
 		fm(sz, true, true, []string{"1", "2"}, "fmt-notint")
+	}
+
+	// (8) widening: queries on built bitmaps. Of(ps, n) then Rank64 / Rank128 / NextOne / PrevOne; the same on the
+	// Words of a Builder history. The number of bits is computed here from the statement (not from the result).
+	nq := g.N(1500, 40000)
+	for k := 0; k < nq; k++ {
+		style := g.R.Intn(5)
+		ps := c12Positions(g, style, g.R.Pick(70, 200, 700, 2500), g.R.Pick(1, 3, 10, 40))
+		os := opts(ps)
+		o := os[g.R.Intn(len(os))]
+		nbits := 0
+		if o != "[]" {
+			fmt.Sscanf(o, "[%d]", &nbits)
+		}
+		if len(ps) > 0 && int(ps[len(ps)-1])+1 > nbits {
+			nbits = int(ps[len(ps)-1]) + 1
+		}
+		if nbits <= 0 {
+			continue
+		}
+		nbits = (nbits + 63) / 64 * 64
+		i, e, rk := c12Range(g, ps, 0, nbits)
+		key := ""
+		if len(ps) > 0 {
+			key = fmt.Sprintf("OQ/%s/nw%d/np%d", rk, minInt(nbits/64, 4), minInt(len(ps), 3))
+		}
+		g.Stat("of-query")
+		g.Do("bitmap.Of/query", L(I32s(ps), o, B(g.R.Bool()), Int(i), Int(e)), key)
+	}
+	for k := 0; k < g.N(800, 20000); k++ {
+		n, ops, mode, fs, lim, all := c12History(g)
+		if lim <= 0 {
+			continue
+		}
+		i, e, rk := c12Range(g, all, 0, lim)
+		key := ""
+		if len(all) > 0 {
+			key = fmt.Sprintf("BQ/m%d/%s/%s", mode, fs, rk)
+		}
+		g.Stat("builder-query")
+		g.Do("bitmap.Builder/query", L(Int(n), L(ops...), B(g.R.Bool()), Int(i), Int(e)), key)
 	}
 }
